@@ -15,7 +15,10 @@ QPolys(g) == LET tx == TsX(g) ty == TsY(g) IN
   \cup { <<<<g.ox + a, g.oy>>, <<g.ox + a + tx, g.oy + ty>>, <<g.ox + a, g.oy + 2 * ty>>, <<g.ox + a - tx, g.oy + ty>>>> : a \in {0, 1, tx} }        \* diamonds
 \* geometries of several parts: two squares of a quarter tile in one row of tiles / one column / on a diagonal, with whole untouched tiles in between
 QMPolys(g) == LET tx == TsX(g) ty == TsY(g) Sq(x, y) == <<<<x, y>>, <<x + 1, y>>, <<x + 1, y + 1>>, <<x, y + 1>>>> IN
-  { <<Sq(g.ox + 1, g.oy + 1), Sq(g.ox + 1 + dx * tx, g.oy + 1 + dy * ty)>> : dx \in {0, 3, -2}, dy \in {0, 2, -3} } \ { <<Sq(g.ox + 1, g.oy + 1), Sq(g.ox + 1, g.oy + 1)>> }
+  ({ <<Sq(g.ox + 1, g.oy + 1), Sq(g.ox + 1 + dx * tx, g.oy + 1 + dy * ty)>> : dx \in {0, 3, -2}, dy \in {0, 2, -3} } \ { <<Sq(g.ox + 1, g.oy + 1), Sq(g.ox + 1, g.oy + 1)>> })
+  \* a triangle over 3 x 3 tiles and a small square inside the tile in the EMPTY corner of the triangle's bounding box (that tile overlaps one part only), both part orders
+  \cup (LET Tri == <<<<g.ox + 1, g.oy + 1>>, <<g.ox + 3 * tx - 1, g.oy + 1>>, <<g.ox + 1, g.oy + 3 * ty - 1>>>> IN
+        { <<Tri, Sq(g.ox + 2 * tx, g.oy + 2 * ty)>>, <<Sq(g.ox + 2 * tx, g.oy + 2 * ty), Tri>> })
 CasesFor(g) == UNION { {[op |-> "spec", g |-> g]},
                        \* grow: the box is enlarged by grow * 1e-9 units on every side (0: as given; 15: 1.5e-8 - more than the 1e-8 edge-contact allowance, whatever
                        \* the pixel size: every tile the given box touches is then really overlapped)
